@@ -6,6 +6,7 @@ import (
 	"math/big"
 	"strconv"
 	"go/token"
+	"go/types"
 	"sort"
 	"strings"
 
@@ -104,6 +105,54 @@ func runC13(r *Run) {
 		})
 	}
 	r.Floor("R1", "SetPrevBlockTS call sites", nTS, 3)
+
+	r.Rule("R4", "FLOW.configured-amounts-never-pass-an-unchecked-narrowing: a coin amount is a 256-bit integer and validation accepts any maximum supply ('no cap' is naturally written 2^256-1), while an 18-decimal sdk.Dec holds 315 bits; a conversion that can fail (it returns an error) may have its error discarded in the block-end code of x/coinomics only when its argument is a constant or a quantity of the running chain (a timestamp, bonded tokens, the supply) — never when it derives from the module's configuration (GetMaxSupply, a Params field): the discarded failure leaves a nil number behind, the comparison with it panics, EndBlock has no recover, and every node stops at that block")
+	{
+		nConv := 0
+		for _, fn := range P.Funcs {
+			if !pathHasSuffix(fnPkgPath(fn), ck) || isTestSupport(P, fn) || fn.Synthetic != "" {
+				continue
+			}
+			seen := map[string]int{}
+			eachCall(fn, func(ci CallInfo) {
+				c, isVal := ci.Instr.(*ssa.Call)
+				if !isVal {
+					return
+				}
+				tup, isT := c.Type().(*types.Tuple)
+				if !isT || tup.Len() < 2 || !isErrorType(tup.At(tup.Len()-1).Type()) {
+					return
+				}
+				// is the error looked at?
+				used := false
+				if refs := c.Referrers(); refs != nil {
+					for _, u := range *refs {
+						if ex, ok := u.(*ssa.Extract); ok && ex.Index == tup.Len()-1 && ex.Referrers() != nil && len(*ex.Referrers()) > 0 {
+							used = true
+						}
+					}
+				}
+				if used {
+					return
+				}
+				nConv++
+				fromConfig := ""
+				for _, a := range c.Call.Args {
+					sl := backSlice(a)
+					if sl.HasCall(func(g CallInfo) bool { return g.Name == "GetMaxSupply" }) {
+						fromConfig = "GetMaxSupply"
+					}
+					if sl.HasField("Params", "RewardCoefficient") {
+						fromConfig = "Params"
+					}
+				}
+				seen[ci.Name]++
+				r.Check(fromConfig == "", "R4", fmt.Sprintf("%s#unchecked-%s-%d", fnID(fn), ci.Name, seen[ci.Name]), P.Pos(instrPos(c)), "the discarded error belongs to a conversion of a constant or of a quantity of the running chain",
+					"the error of "+ci.Name+" is discarded although its argument derives from the module's configuration ("+fromConfig+"): a configured value the target type cannot hold (a maximum supply above ~6.67e76 for an 18-decimal Dec) leaves a nil number behind and the next operation on it panics in EndBlock on every node")
+			})
+		}
+		r.Floor("R4", "fallible calls with a discarded error in x/coinomics/keeper", nConv, 3)
+	}
 
 	if eb, ok := P.FnOK("(" + ck + ".Keeper).EndBlocker"); ok {
 		isMA := isCallMatching(func(ci CallInfo) bool { return ci.Name == "MintAndAllocate" })
@@ -230,8 +279,7 @@ func runC13(r *Run) {
 			return false, false
 		}
 		a := callArgs(c)
-		l, rr := backSlice(a[0]), backSlice(a[1])
-		return true, l.HasCall(func(g CallInfo) bool { return g.Name == "GetSupply" }) && l.HasCall(func(g CallInfo) bool { return g.Name == "TotalBondedTokens" }) && rr.HasCall(func(g CallInfo) bool { return g.Name == "GetMaxSupply" })
+		return true, isCapComparison(a)
 	})
 	r.Check(len(capEdges) > 0, "R2", fnID(fn)+"#cap-comparison", where, "supply + mint is compared with the maximum supply", "the comparison of supply + block mint with the maximum supply is gone")
 	// the comparison is made before every mint: no path reaches the mint without having evaluated it
@@ -245,8 +293,7 @@ func runC13(r *Run) {
 			if len(a) != 2 {
 				return false
 			}
-			l, rr := backSlice(a[0]), backSlice(a[1])
-			return l.HasCall(func(g CallInfo) bool { return g.Name == "GetSupply" }) && rr.HasCall(func(g CallInfo) bool { return g.Name == "GetMaxSupply" })
+			return isCapComparison(a)
 		}
 		isMint := func(in ssa.Instruction) bool { return in == ssa.Instruction(mintCall) }
 		w := PathQuery{Fn: fn, Block: isCap, Target: isMint}.Search()
@@ -280,15 +327,35 @@ func runC13(r *Run) {
 		w := PathQuery{Fn: fn, StartBlock: tb, Block: isSetParams, Target: func(in ssa.Instruction) bool { return isMint(in) || isSuccessExit(in) }}.Search()
 		r.Check(w == nil, "R2", fnID(fn)+"#cap-branch-stores-params", where, "the cap branch stores the disabled params", "on the cap branch the params with EnableCoinomics=false are not stored before minting/returning", P.witness(w)...)
 		// the amount on this branch is replaced by f(maxSupply, supply)
+		// (the difference may be computed on the branch or before it; what the branch contributes to the minted amount
+		// derives from it and no longer from the formula)
 		repl := false
-		for _, in := range tb.Instrs {
-			if c, ok := in.(*ssa.Call); ok && callInfo(c).Name == "Sub" {
+		isRemainder := func(v ssa.Value) bool {
+			sl := backSlice(v)
+			if sl.HasCall(func(g CallInfo) bool { return g.Name == "TotalBondedTokens" }) {
+				return false
+			}
+			return sl.Any(func(x ssa.Value) bool {
+				c, ok := x.(*ssa.Call)
+				if !ok || callInfo(c).Name != "Sub" {
+					return false
+				}
 				a := callArgs(c)
-				if backSlice(a[0]).HasCall(func(g CallInfo) bool { return g.Name == "GetMaxSupply" }) && backSlice(a[1]).HasCall(func(g CallInfo) bool { return g.Name == "GetSupply" }) && backSlice(minted).Has(c) {
+				return len(a) == 2 && backSlice(a[0]).HasCall(func(g CallInfo) bool { return g.Name == "GetMaxSupply" }) && backSlice(a[1]).HasCall(func(g CallInfo) bool { return g.Name == "GetSupply" })
+			})
+		}
+		backSlice(minted).Any(func(x ssa.Value) bool {
+			ph, ok := x.(*ssa.Phi)
+			if !ok {
+				return false
+			}
+			for i, ev := range ph.Edges {
+				if pred := ph.Block().Preds[i]; (pred == tb || dominates(tb, pred)) && isRemainder(ev) {
 					repl = true
 				}
 			}
-		}
+			return repl
+		})
 		r.Check(repl, "R2", fnID(fn)+"#cap-branch-mints-remainder", where, "on the cap branch the amount becomes maxSupply − supply", "on the cap branch the minted amount is not replaced by a value derived from maxSupply − supply")
 	}
 	// one rounding only: the statement says "rounded to the nearest unit"; the amount that is compared with the cap and the
@@ -297,9 +364,15 @@ func runC13(r *Run) {
 	eachCall(fn, func(ci CallInfo) {
 		switch ci.Name {
 		case "TruncateInt", "TruncateInt64", "Ceil", "Floor", "TruncateDec":
-			if backSlice(callArgs(ci.Instr)[0]).HasCall(func(g CallInfo) bool { return g.Name == "TotalBondedTokens" }) {
-				badConv = ci.Name + " at " + P.Pos(instrPos(ci.Instr))
+			if !backSlice(callArgs(ci.Instr)[0]).HasCall(func(g CallInfo) bool { return g.Name == "TotalBondedTokens" }) {
+				return
 			}
+			// rounding the formula amount *up* for the comparison with an integer remainder is exact (m > r ⇔ ⌈m⌉ > r for
+			// integer r) as long as the rounded value is not what gets minted
+			if v, isV := ci.Instr.(ssa.Value); ci.Name == "Ceil" && isV && !backSlice(minted).Has(v) {
+				return
+			}
+			badConv = ci.Name + " at " + P.Pos(instrPos(ci.Instr))
 		}
 	})
 	r.Check(badConv == "", "R2", fnID(fn)+"#single-rounding", where, "the block mint is only ever rounded with RoundInt", "the block-mint amount is converted with "+badConv+" somewhere in MintAndAllocate while the minted coin uses RoundInt: the cap comparison and the minted amount can disagree by one unit (supply can end above the maximum)")
@@ -585,4 +658,15 @@ func leapBranchAssociation(fd *ast.FuncDecl) (string, string) {
 		return true
 	})
 	return verdict, detail
+}
+
+// isCapComparison: the operands of a GT call are "formula amount (+ supply)" and "maximum supply (− supply)": the block
+// mint on the left, the maximum supply on the right, the current supply on either side.
+func isCapComparison(a []ssa.Value) bool {
+	if len(a) != 2 {
+		return false
+	}
+	l, r := backSlice(a[0]), backSlice(a[1])
+	has := func(s *Slice, name string) bool { return s.HasCall(func(g CallInfo) bool { return g.Name == name }) }
+	return has(l, "TotalBondedTokens") && has(r, "GetMaxSupply") && !has(r, "TotalBondedTokens") && (has(l, "GetSupply") || has(r, "GetSupply"))
 }
